@@ -123,6 +123,12 @@ Gw_C16 == {GwReg(AB, 7), GwReg(AB, 8), GwReg(AC, 8), GwReg(AC, 7), GwPub(0, 0, 7
 
 ---- (* C06 client half: coinciding message IDs of the two directions *)
 Apis_C06 == {ApiT("Publish", AB, 1, ""), ApiT("Publish", AB, 2, ""), ApiT("Subscribe", AB, 1, "h1"), ApiT("Register", AC, 0, "")}
+(* C06x: an own exchange (Publish QoS 1 / 2, Subscribe, Register) and a gateway-initiated QoS 2 exchange with the
+   coinciding message ID, which may complete (PUBLISH, PUBREL) before, between or after the own acknowledgements;
+   small alphabet, every schedule executed *)
+Apis_C06x == Apis_C06
+Gw_C06x == {GwPub(2, 0, 7, <<>>, "pend"), Gw("PUBREL", "gw"), GwAck("PUBACK", "pend", 7), Gw("PUBREC", "pend"),
+            Gw("PUBCOMP", "pend"), GwAck("SUBACK", "pend", 7), GwAck("REGACK", "pend", 8)}
 Gw_C06 == {GwPub(2, 0, 7, <<>>, "any"), Gw("PUBREL", "any"), GwAck("PUBACK", "pend", 7), Gw("PUBREC", "pend"),
            Gw("PUBCOMP", "pend"), GwAck("SUBACK", "pend", 7), GwAck("REGACK", "pend", 8)}
 
